@@ -279,7 +279,13 @@ def _data_paths(run, P):
             # the index argument, looked at through local definitions (side tables may be read into locals first)
             nodes, _names = ldefs.closure(d.args[1])
             from_slot = any(isinstance(x, ast.Subscript) and str_const(x.slice) == "antimeridian_face_indices" and slot in norm(x.value) for e in nodes for x in ast.walk(e))
-            if norm(d.args[0]) == "self.values" and from_slot:
+            # the array the rows are deleted from: self.values, possibly through a local that was bound to it and not changed since
+            a0 = d.args[0]
+            if isinstance(a0, ast.Name):
+                prior = [v for (v, _i, _l) in ldefs.defs.get(a0.id, []) if getattr(v, "lineno", 0) < d.lineno and not any(x is d for x in ast.walk(v))]
+                if prior and all(norm(v) == "self.values" for v in prior):
+                    a0 = prior[0]
+            if norm(a0) == "self.values" and from_slot:
                 from .c03 import _guards_of
                 st = [s for s in iter_stmts(f.node.body) if any(n is d for n in ast.walk(s))][-1]
                 g = _guards_of(f.node.body, st) or []
